@@ -255,6 +255,16 @@ def check_vector(v):
         res["pileup[stranded windows]"] = [[int(x) for x in np.asarray(r.to_array() if hasattr(r, "to_array") else r).tolist()] for r in rows]
         prof = bnp.compute(np.mean(iv().get_pileup()[windows], axis=0))
         res["mean profile"] = [float(x) for x in np.asarray(prof).tolist()]
+        # windows of unequal lengths (4, 2, 3): the column-wise mean divides every column by the number of rows that reach it
+        we = ws + np.array([4, 2, 3] * len(KEYNAMES), dtype=int)
+        uneven = g.get_intervals(Bed6(wn, ws, we, ["w"] * len(wn), np.zeros(len(wn), dtype=int), ["+"] * len(wn)), stranded=True)
+        prof = bnp.compute(np.mean(iv().get_pileup()[uneven], axis=0))
+        res["mean profile (uneven windows)"] = [round(float(x), 9) for x in np.asarray(prof).tolist()]
+        # windows around the start locations, given by flank and by window size (even and odd)
+        for kw in ({"flank": 1}, {"window_size": 4}, {"window_size": 3}):
+            w_ = iv().get_location("start").get_windows(**kw)
+            d = (w_.compute() if streamed else w_).get_data()
+            res["start windows %s" % kw] = [[c.to_string() if hasattr(c, "to_string") else c, int(s), int(e)] for c, s, e in zip(d.chromosome, d.start.tolist(), d.stop.tolist())]
         return res
     so = outcome(pipelines, True)
     mo = outcome(pipelines, False)
